@@ -560,6 +560,17 @@ fn sessions(ctx: &Ctx, shard: usize, n: u64, rep: &mut Report) {
             }
         }
     }
+    if shard == 11 {
+        // 300 data chunks in a row through one bus (a page of 4 800 bytes; more than any 8-bit tally of consecutive chunks
+        // holds), then a query: chunk 256 is written like chunk 1
+        let mut msgs: Vec<RefMsg> = (0..300usize).map(|i| RefMsg::Data { offset: (i * 16) as u16, data: vec![i as u8; 16] }).collect();
+        msgs.push(RefMsg::Count(300));
+        msgs.push(RefMsg::Query(3));
+        let mut tape = refs::wire(&RefMsg::Report(3, S_PIX_RECV));
+        tape.extend_from_slice(SENTINEL);
+        run_session(&msgs, tape, vec![], vec![], vec![], WriteAct::Accept(usize::MAX), rep);
+        rep.count("sessions_of_300_consecutive_data_chunks");
+    }
     if shard == 9 || shard == 10 {
         // a reply that takes SECONDS to arrive although no single read fails or times out (a long line trickling in a
         // byte or a few at a time): the longest legal line at 12 ms per read call is more than 6 s in all. The bus has
@@ -834,6 +845,7 @@ pub fn run(ctx: &Ctx) -> Outcome {
     floors.push(floor("a failing read right after each kind of reply (15 reply kinds x 3 next requests x 3 positions x 4 failures)", report.get("sessions_failing_read_after_each_reply_kind") == 15 * 3 * 3 * 4, report.get("sessions_failing_read_after_each_reply_kind")));
     floors.push(floor("two ordinary exchanges after exactly k failing ones (14 counts x 5 kinds of failure)", report.get("sessions_after_k_failures") == 70, report.get("sessions_after_k_failures")));
     floors.push(floor("replies of 523 bytes that take more than 5 s to arrive, no read failing", report.get("replies_trickling_in_over_seconds") == 2 && report.maxs.get("slowest_reply_seconds").copied().unwrap_or(0.0) > 5.0, format!("{} replies, slowest {:.1} s", report.get("replies_trickling_in_over_seconds"), report.maxs.get("slowest_reply_seconds").copied().unwrap_or(0.0))));
+    floors.push(floor("300 data chunks in a row through one bus, then a query", report.get("sessions_of_300_consecutive_data_chunks") == 1, report.get("sessions_of_300_consecutive_data_chunks")));
     floors.push(floor("near-twin messages (no data / 00 / one byte / more; neighbouring type or address) back to back through one bus, every ordered pair", report.get("sessions_of_near_twin_messages") == 4 * 12 * 11, report.get("sessions_of_near_twin_messages")));
     floors.push(floor("data chunks followed by chunk counts of 0 / 1 / k / 65535 through one bus", report.get("sessions_with_chunks_and_counts") == 16, report.get("sessions_with_chunks_and_counts")));
     floors.push(floor("one bus instance used for 70 000 messages", report.get("long_session_messages_checked") == 70_000, report.get("long_session_messages_checked")));
